@@ -487,3 +487,14 @@ class ExprGen(object):
         if x < 0.6:
             return ("par", self.cond(depth - 1))
         return self.rel(depth)
+
+
+def subst(e, old, new):
+    """Copy of expression e with every occurrence of the node `old` replaced by `new`."""
+    if e == old:
+        return new
+    if isinstance(e, tuple):
+        return tuple(subst(x, old, new) for x in e)
+    if isinstance(e, list):
+        return [subst(x, old, new) for x in e]
+    return e
